@@ -13,6 +13,12 @@ non-ASCII strings, empty / maximal containers, structs lacking optional members)
   drv : Python-native value as a driver hands it  -> internal value v = D.validate(x)
 Laws decided for every datatype object D in {dt, cdt} and every internal value v of D:
   accept   (completeness)  a candidate in the strict form of its kind must be accepted by D (C01 only decides soundness)
+  value    for a strict-form candidate x the accepted v must DENOTE x according to the independent reference
+           vf.catalog.refmodel.judge(spec, x, v, None, entry) (the later laws are identities on v and would be
+           self-consistent on a value that was already corrupted on the way in, e.g. an integer taken through a double)
+  wire-form the exported form of that v must equal the canonical wire form derived from the spec and x alone (the same
+           integer exactly for int, n for scaled, the member's value for enum, the identical string, the same base64 text,
+           position by position in containers; for double the same number)
   export   e = D.export_value(v) must not raise
   json     json.dumps(e, allow_nan=False) must succeed (strict JSON), json.loads gives e back
   kind     e has the JSON kind SECoP prescribes (int for int/scaled/enum, number for double, true/false for bool, str,
@@ -110,6 +116,21 @@ def build(spec):
 
 def all_types(tier):
     return T.all_types(tier, 3) + ext_types()
+
+
+def bigint_types():
+    """integer types whose limits / values a double can not represent (used by C02 only)"""
+    i64, u64 = ('int', -2 ** 63, 2 ** 63 - 1), ('int', 0, 2 ** 64 - 1)
+    i53 = ('int', -2 ** 53 - 1, 2 ** 53 + 1)
+    top = ('int', 2 ** 63 - 1, 2 ** 63 - 1)
+    wide = ('int', -2 ** 64, 2 ** 64)
+    return [u64, i53, top, wide,
+            ('array', u64, 0, 3), ('array', i53, 1, 2), ('tuple', (i64, u64)), ('tuple', (top,)),
+            ('struct', (('a', i53), ('b', u64)), ('b',)), ('array', ('tuple', (i64, i53)), 0, 2)]
+
+
+def c02_types(tier):
+    return all_types(tier) + bigint_types()
 
 
 # ---------------------------------------------------------------------------------------------
@@ -343,6 +364,60 @@ def kind_check(spec, v, e):
     return None
 
 
+def canon_wire(spec, x, entry):
+    """the wire form SECoP prescribes for strict-form candidate x, derived from the spec and x only"""
+    k = spec[0]
+    if k == 'double':
+        return float(x)
+    if k == 'int':
+        return int(x)
+    if k == 'scaled':
+        return int(x) if entry == 'wire' else round(x / spec[1])
+    if k == 'bool':
+        return bool(x)
+    if k == 'enum':
+        return dict(spec[1])[x] if isinstance(x, str) else int(x)
+    if k == 'string':
+        return x
+    if k == 'blob':
+        return x if entry == 'wire' else V.b64(x)
+    if k == 'array':
+        return [canon_wire(spec[1], e, entry) for e in x]
+    if k == 'tuple':
+        return [canon_wire(m, e, entry) for m, e in zip(spec[1], x)]
+    if k == 'struct':
+        members = dict(spec[1])
+        return {n: canon_wire(members[n], e, entry) for n, e in x.items()}
+    raise ValueError(spec)
+
+
+def wdiff(spec, e, c):
+    """kind at the first position where exported JSON value e differs from canonical wire form c, else None.
+    Integers must be identical integers (1 == 1.0 == True is not good enough on the wire)"""
+    k = spec[0]
+    if k in ('array', 'tuple'):
+        if type(e) is not list or len(e) != len(c):
+            return k
+        members = [spec[1]] * len(c) if k == 'array' else spec[1]
+        for m, ee, cc in zip(members, e, c):
+            d = wdiff(m, ee, cc)
+            if d:
+                return d
+        return None
+    if k == 'struct':
+        if type(e) is not dict or set(e) != set(c):
+            return k
+        members = dict(spec[1])
+        for n in c:
+            d = wdiff(members[n], e[n], c[n])
+            if d:
+                return d
+        return None
+    if k == 'double':
+        return None if type(e) in (int, float) and e == c else k
+    return None if type(e) is type(c) and e == c else k
+
+
 def vdiff(spec, a, b, skipfloat=False):
     """None if a equals b (==), else (kind at the first difference, reason-class).  skipfloat: double/scaled leaves
     are exempt (container shapes are not)"""
@@ -527,7 +602,31 @@ class Checker:
             self.viol('accept', side, shape(sub, sx), f'{entry}:{type(v).__name__}', case,
                       f'{T.sstr(spec)} [{side} datatype] {entry} candidate {x!r} is a valid value but was refused: '
                       f'{type(v).__name__}: {v} (innermost refused part: {T.sstr(sub)} {sx!r})')
+        if ok and isstrict:
+            self.denotes(ts, side, entry, x, v, case)
         return ok, v
+
+    def denotes(self, ts, side, entry, x, v, case):
+        """the accepted internal value must denote the offered candidate (independent reference), and its exported form
+        must be the canonical wire form derived from the spec and the candidate"""
+        part, spec = self.part, ts.spec
+        dt = ts.side(side)
+        part.traces += 1
+        res = R.judge(spec, x, v, None, entry)
+        part.outcomes[f'{spec[0]}:{side}:{entry}:value:{"denotes-candidate" if not res else "differs"}'] += 1
+        if res:
+            self.viol('value', side, res[2], f'{res[0]}:{norm(res[1])}', case,
+                      f'{T.sstr(spec)} [{side} datatype] {entry} candidate {x!r} was accepted as {v!r}: {res[1]}')
+        ok, e = self.call(dt.export_value, v)
+        if not ok:
+            return     # judged by the export law
+        canon = canon_wire(spec, x, entry)
+        d = wdiff(spec, e, canon)
+        part.outcomes[f'{spec[0]}:{side}:{entry}:wire-form:{"canonical" if not d else "differs"}'] += 1
+        if d:
+            self.viol('wire-form', side, d, 'differs-from-canonical-form-of-the-candidate', case,
+                      f'{T.sstr(spec)} [{side} datatype] {entry} candidate {x!r} (internal value {v!r}) is exported as {e!r}, '
+                      f'the wire form of that candidate is {canon!r}')
 
     def laws(self, ts, side, v, case):
         """all laws for internal value v of datatype `side`"""
@@ -665,18 +764,19 @@ def shard_fn(specs):
 
 
 def run(ctx):
-    types = all_types(ctx.tier)
+    types = c02_types(ctx.tier)
     # heavy types (large blobs / full scaled grids, containers of strings) are spread by interleaving
     n = 256
     shards = [types[i::n] for i in range(n)]
     ctx.pmap(shard_fn, [s for s in shards if s], name='roundtrip')
     ctx.rule = ('enumeration: every type of the catalogue (all leaf kinds with boundary limits, containers to depth 3, plus 12 '
-                'types carrying unit / fmtstr / resolution properties) x '
+                'types carrying unit / fmtstr / resolution properties and 10 integer types with limits / values beyond 2^53) x '
                 '{node datatype, client datatype rebuilt from the JSON datainfo} x every valid candidate of the spec-derived '
                 'value catalogue (limits and their neighbours, all grid points of small scaled ranges / edge and power-of-two '
                 'grid points of large ones, every enum member, every byte value, all base64 paddings, quoting-hostile and '
                 'non-ASCII strings, empty/maximal containers, structs lacking optional members) in wire and driver form; '
-                'per distinct internal value: export, strict JSON, kind, denotation, re-import on node and client, text form '
+                'per strict candidate: the accepted value denotes the candidate (reference model) and is exported in the canonical wire '
+                'form of the candidate; per distinct internal value: export, strict JSON, kind, denotation, re-import on node and client, text form '
                 'round trip.  states = distinct (datatype object, internal value); distinct_nontrivial = those whose encoding '
                 'is not the identity (not a plain int/string/bool) or that lack an optional member; evaluations = candidates '
                 'offered; traces = round trips compared; transitions = calls into frappy')
